@@ -22,7 +22,8 @@ confirm)
       cp "$D"/demo*_test.go "$WT/$pkgdir/" 2>/dev/null
       [ -d "$D/demo_testdata" ] && mkdir -p "$WT/$pkgdir/testdata" && cp -r "$D/demo_testdata/." "$WT/$pkgdir/testdata/" && cp -r "$D/demo_testdata" "$WT/$pkgdir/demo_testdata"
       pat=$(grep -ho 'func Test[A-Za-z0-9_]*' "$D"/demo*_test.go | sed 's/func //' | paste -sd'|')
-      ( cd "$WT/$pkgdir" && go test -vet=off -count=1 -run "^($pat)\$" . ) > "$WT/demo.$1.log" 2>&1; echo $?
+      RACE=""; CGO=0; grep -q -- '-race' "$D/meta.json" 2>/dev/null && RACE="-race" && CGO=1
+      ( cd "$WT/$pkgdir" && CGO_ENABLED=$CGO go test $RACE -vet=off -count=1 -run "^($pat)\$" . ) > "$WT/demo.$1.log" 2>&1; echo $?
     fi
   }
   echo "== without the change"; r0=$(run_demo without); echo "demo exit: $r0"; tail -3 "$WT/demo.without.log"
